@@ -233,3 +233,90 @@ func (ex *Exec) chanClose(ch *ChanV) {
 		}
 	}
 }
+
+// selectOp: a select whose cases can be decided without blocking (buffered data, closed
+// channel, a coroutine parked on the other side); a non-blocking select takes default
+// otherwise; a blocking one first lets the coroutines run.
+func (ex *Exec) selectOp(fr *Frame, x *ssa.Select) Value {
+	type st struct {
+		ch   *ChanV
+		send Value
+		elem types.Type
+	}
+	states := make([]st, len(x.States))
+	for i, s := range x.States {
+		ch, _ := ex.get(fr, s.Chan).(*ChanV)
+		states[i].ch = ch
+		if ct, ok := s.Chan.Type().Underlying().(*types.Chan); ok {
+			states[i].elem = ct.Elem()
+		}
+		if s.Dir == types.SendOnly {
+			states[i].send = ex.get(fr, s.Send)
+		}
+	}
+	ready := func(i int) bool {
+		s := states[i]
+		if s.ch == nil {
+			return false
+		}
+		if x.States[i].Dir == types.SendOnly {
+			if s.ch.closed || len(s.ch.buf) < s.ch.cap {
+				return true
+			}
+			for _, c := range ex.coros {
+				if c.state == coBlockedRecv && c.ch == s.ch && c != ex.cur {
+					return true
+				}
+			}
+			return false
+		}
+		if len(s.ch.buf) > 0 || s.ch.closed {
+			return true
+		}
+		for _, c := range ex.coros {
+			if c.state == coBlockedSend && c.ch == s.ch && c != ex.cur {
+				return true
+			}
+		}
+		return false
+	}
+	pick := -1
+	for {
+		for i := range states {
+			if ready(i) {
+				pick = i
+				break
+			}
+		}
+		if pick >= 0 || !x.Blocking {
+			break
+		}
+		if ex.cur != nil {
+			ex.unsupported("blocking select inside a coroutine")
+		}
+		c := ex.runnableCoro()
+		if c == nil {
+			ex.abort("deadlock", "select\x00blocking select with no case that any goroutine of the model will ever enable @"+ex.posStr(ex.curPos))
+		}
+		ex.runCoro(c)
+	}
+	res := TupleV{ex.tc.Const(64, uint64(int64(pick))), ex.tc.False}
+	for i, s := range x.States {
+		if s.Dir != types.RecvOnly {
+			continue
+		}
+		var v Value = ex.zero(states[i].elem)
+		if i == pick {
+			r, ok := ex.chanRecv(states[i].ch, states[i].elem)
+			if r != nil {
+				v = r
+			}
+			res[1] = ex.tc.Bool(ok)
+		}
+		res = append(res, v)
+	}
+	if pick >= 0 && x.States[pick].Dir == types.SendOnly {
+		ex.chanSend(states[pick].ch, states[pick].send)
+	}
+	return res
+}
